@@ -274,6 +274,26 @@ pub fn gen(a: &Args) -> Vec<String> {
             add(rt(7, vec![null_app(), null_app()], vec![t.clone(), rename_term(&t, &|s| if s == from { 7 } else { s })]), &mut terms, &mut ops, &mut nadd);
             add(rt(7, vec![null_app(), null_app()], vec![t.clone(), t.clone()]), &mut terms, &mut ops, &mut nadd);
         }
+        // near misses for repeated variables: one (non-symmetric, or only partially symmetric) class used twice by a parent
+        // with its slots permuted — `(h ?a ?a)` must NOT match `(h (f $1 $2) (f $2 $1))`
+        if rng.chance(1, 2) {
+            let (v, ar) = *rng.pick(&[(0u64, 2usize), (1, 3), (1, 3), (2, 4)]);
+            let base: Vec<u64> = (1..=ar as u64).collect();
+            let mut p = base.clone(); rng.shuffle(&mut p); if p == base { p.swap(0, ar - 1); }
+            let t0 = rt(v, base.iter().map(|s| slot_arg(*s)).collect(), vec![]);
+            let t1 = rt(v, p.iter().map(|s| slot_arg(*s)).collect(), vec![]);
+            if ar >= 3 && rng.chance(1, 2) {
+                // a partial symmetry (first two slots) that does not contain every permutation
+                let mut q = base.clone(); q.swap(0, 1);
+                let tq = rt(v, q.iter().map(|s| slot_arg(*s)).collect(), vec![]);
+                let h0 = add(t0.clone(), &mut terms, &mut ops, &mut nadd);
+                let h1 = add(tq, &mut terms, &mut ops, &mut nadd);
+                ops.push(lst(vec![sym("union"), num(h0), num(h1)]));
+            }
+            add(rt(7, vec![null_app(), null_app()], vec![t0.clone(), t1.clone()]), &mut terms, &mut ops, &mut nadd);
+            if rng.chance(1, 2) { add(rt(7, vec![null_app(), null_app()], vec![rt(6, vec![null_app()], vec![t0.clone()]), t1.clone()]), &mut terms, &mut ops, &mut nadd); }
+            if rng.chance(1, 3) { add(rt(7, vec![null_app(), null_app()], vec![rt(7, vec![null_app(), null_app()], vec![t0.clone(), rt(3, vec![], vec![])]), t1.clone()]), &mut terms, &mut ops, &mut nadd); }
+        }
         let mut present = vec![]; for t in &terms { variants_of(t, &mut present); }
         present.push(99);
         let mut all: Vec<(&str, u64)> = POOL.iter().map(|r| (r.0, r.3)).collect();
